@@ -14,7 +14,10 @@ def build(seed, asc, nnoise=1, cplx=True, sr=1e6, t0=3.25):
         s.add_noise(0.5 * q, 1.0 + q)
     s.add_constant_signal(f_start=1.2e6, drift_rate=5e5, level=0.7, phase=0.3)
     s.add_signal(lambda ts: 0.1 * np.sin(2 * np.pi * 1e3 * ts))
-    if cplx:
+    if cplx == 'gated':
+        # a complex-dtype source that is exactly zero (also its imaginary part) until it switches on
+        s.add_signal(lambda ts: 0.05 * np.exp(2j * np.pi * 2e3 * ts) * (ts >= t0 + 20 / sr))
+    elif cplx:
         s.add_signal(lambda ts: 0.05 * np.exp(2j * np.pi * 2e3 * ts))
     return s
 
@@ -39,6 +42,13 @@ for seed in range(R.n(3, 12)):
                     continue
                 R.check(name, c, np.allclose(va, vb, rtol=1e-9, atol=1e-6), float(np.max(np.abs(va - vb))))
                 R.check('clock/advance', c, abs(a.t_start - b.t_start) <= 1e-9 * abs(b.t_start), [a.t_start, b.t_start], nontrivial=False)
+    # a gated complex source: requests that lie entirely before it switches on must behave like any other partition
+    for ps in ([48], [30, 18], [16, 16, 16], [5, 10, 1, 32]):
+        a, b = build(seed, True, 1, 'gated'), build(seed, True, 1, 'gated')
+        r = R.guard('chunking/gated-complex-source/no-exception', dict(seed=seed, parts=ps), lambda: np.concatenate([np.array(a.get_samples(p), dtype=complex) for p in ps]))
+        if r is not None:
+            vb = np.array(b.get_samples(48), dtype=complex)
+            R.check('chunking/gated-complex-source', dict(seed=seed, parts=ps), np.allclose(r, vb, rtol=1e-9, atol=1e-6), float(np.max(np.abs(r - vb))))
     s = build(seed, True, 0, False)
     n = 256
     v = s.get_samples(n)
